@@ -13,6 +13,7 @@ type Unit struct {
 	Families []string // family names of Func to discharge ("*" = all)
 	Lemma    string   // lemma name
 	NoSym    bool     // families only
+	Scen     bool     // run all scenarios of Func
 }
 
 type PropPlan struct {
@@ -147,8 +148,65 @@ func (u *Universe) plans(st *SpecTables) map[string]*PropPlan {
 		Assumptions: []string{"A5", "A9", "A10"},
 		Meta: []string{"v3/v2 temporal with E, RL, RC Not Defined equals the base score and temporal <= base: conjuncts of the temporal families' postconditions (result === tenth(kb) when all three are Not Defined; v3_outer_k(kb,...) <= kb; v2: result <= tenth(kb)). v3 environmental with all environmental metrics Not Defined: the Modified*.Value contracts give the base weights (lemma v3_eff_neutral), lemma family v3_env_neutral (5,184 instances, spec side) shows equal zero cut-off and equal inner Roundup unless scope changed and version 3.1, and the outer stage is the same function v3_outer_k as the temporal score; with C03 and C02 this is environmental == temporal. v2 Target Distribution None => 0: conjunct of the final-stage families."},
 	}
+	rtLemmas := func(v string, f *SpecFamily) []Unit {
+		var out []Unit
+		for _, m := range f.Metrics {
+			out = append(out, Unit{Lemma: "c20_roundtrip_" + v + "_" + m.Name}, Unit{Lemma: "c20_roundtrip2_" + v + "_" + m.Name})
+		}
+		return out
+	}
+	objFuncs := func(alias string, names ...string) []Unit {
+		var out []Unit
+		for _, t := range []string{"Base", "Temporal", "Environmental"} {
+			for _, n := range names {
+				u := Unit{Func: alias + "." + t + "." + n}
+				if n == "Decode" {
+					u.Scen = true
+				}
+				out = append(out, u)
+			}
+		}
+		return out
+	}
+	consV3 := []Unit{{Func: "v3m.NewBase"}, {Func: "v3m.NewTemporal"}, {Func: "v3m.NewEnvironmental"}, {Func: "v3m.GetVersion"}, {Func: "v3m.get"}, {Func: "v3m.Version.String"}}
+	consV2 := []Unit{{Func: "v2m.NewBase"}, {Func: "v2m.NewTemporal"}, {Func: "v2m.NewEnvironmental"}}
+	decV3 := cat(v3(), consV3, objFuncs("v3m", "decodeOne", "GetError", "Decode"))
+	decV2 := cat(v2(), consV2, objFuncs("v2m", "decodeOne", "GetError", "IsEmpty", "Encode", "Decode"))
+	a1 := []string{"A1", "A2", "A3", "A4", "A10", "map-order-free"}
+	P["C07"] = &PropPlan{ID: "C07", Title: "v3 decoders accept exactly the well-formed vectors of their level",
+		Units: cat(decV3, rtLemmas("v3", st.V3)), Assumptions: a1,
+		Meta: []string{"(err == nil) <==> wf_v3_<level>(vector) is a postcondition of each Decode for every string (every number of tokens; loop invariant over the processed prefix), wf_v3 being the property's sentence over the pieces of strings.Split (token theory in the prelude). 'Arbitrary byte strings' are covered because a token is an arbitrary '/'-free string (A1). Additionally every canonical vector of symbolic valid codes is executed exactly (scenarios canon_new / canon_nil) and accepted with the written fields."},
+	}
+	P["C08"] = &PropPlan{ID: "C08", Title: "v2 decoders accept exactly the canonical vectors of their level",
+		Units: cat(decV2, rtLemmas("v2", st.V2)), Assumptions: a1,
+		Meta: []string{"Direction accepted => canonical: postcondition [C08] of each Decode for every string: the object is valid, groups are all-or-nothing and the input string IS the canonical concatenation of the decoded codes (so it is one of the canonical vectors). Direction canonical => accepted: scenarios canon_s6/s9/s11/s14 (constructor-fresh and nil receiver): for every canonical vector of the level with symbolic valid codes the decoder is executed exactly (the token list of a structured string is known by A1) and accepts with exactly those fields. Higher-level groups offered to a lower decoder are rejected by the first direction."},
+	}
+	P["C09"] = &PropPlan{ID: "C09", Title: "a decoded object holds exactly the values written in the vector",
+		Units: cat(decV3, decV2), Assumptions: a1,
+		Meta: []string{"[C09] postconditions of every Decode: version and each field equal the parse of the value of the (unique) token with that name; unwritten v3 temporal/environmental metrics are Not Defined, v2 group name flags are set iff a token of the group was written (IsEmpty contracts). Order independence: the postcondition determines every field from the SET {(name, value)} of tokens (names are pairwise distinct on accepted vectors), so two accepted vectors with the same token set give equal fields; scores depend on fields only (Score contracts). X explicit vs omitted: parse(\"X\") is the Not Defined value, which is also the constructor's default - same fields, same scores, same encoding."},
+	}
+	encUnits := cat(objFuncs("v3m", "Encode", "String"), objFuncs("v2m", "Encode", "String"))
+	P["C10"] = &PropPlan{ID: "C10", Title: "encoding is canonical; decode-encode-decode is the identity",
+		Units: cat(decV3, decV2, encUnits, rtLemmas("v3", st.V3), rtLemmas("v2", st.V2)), Assumptions: a1,
+		Meta: []string{"Encode/String postconditions give the exact canonical text for every object whose names are recorded (v3: prefix, specification order, X spelled out for every temporal/environmental metric of the level; v2: exactly the recorded groups); on accepted objects (Decode postconditions: all base names recorded, fields valid) Encode succeeds. v2: the encoding is byte-identical to the input (Decode [C08]: vector == canonical text == Encode text). Round trip: the canonical text of any valid field assignment decodes to exactly those fields (scenarios, both versions), hence Decode(Encode(x)) has the fields of x and therefore the same scores and the same encoding."},
+	}
+	P["C11"] = &PropPlan{ID: "C11", Title: "every rejection reports one sentinel naming a defect the input really has",
+		Units: cat(decV3, decV2), Assumptions: a1,
+		Meta: []string{"[C11] postconditions of every Decode: a non-nil error matches exactly one sentinel (errors are modelled as their errors.Is match set), and for each sentinel the corresponding defect predicate holds of the token list (malformed prefix/token, other version, repeated name, unknown value, name outside the level, missing base metric, v2 incomplete group, v2 misordered = all tokens valid and pairwise distinct yet not canonical). 'Exactly one kind of defect => that kind is reported' follows: the reported sentinel's defect is present, so if only one kind is present it is that one."},
+	}
+	allObj := func(alias string) []Unit {
+		return objFuncs(alias, "decodeOne", "GetError", "Decode", "Encode", "String", "Score", "Severity", "BaseMetrics", "TemporalMetrics", "IsEmpty")
+	}
+	P["C12"] = &PropPlan{ID: "C12", Title: "no panic, never both/neither, no fabricated results",
+		Units: cat(v3(), v2(), consV3, consV2, allObj("v3m"), allObj("v2m"), []Unit{{Func: "v3m.severity"}, {Func: "v2m.severity"}}), Assumptions: a1,
+		Meta: []string{"Safety obligations (nil dereference on every hop of promoted fields, slice index and slice bounds, write to a nil map) are generated without annotation at every such operation of every function above and discharged under the precondition 'receiver nil or object invariant'; the invariant (embedded pointers and names maps non-nil and pairwise distinct) is established by the constructors and preserved by every method including a failed Decode ([C12] postconditions). Decode: (object == nil) != (error == nil) for every string. Unknown/invalid version or metric => GetError/Encode report an error and Score is +0.0 ([C12] postconditions with the *Known predicates). float->int conversion outside int64 and NaN do not panic in Go (modelled as unspecified value)."},
+	}
+	P["C14"] = &PropPlan{ID: "C14", Title: "base, temporal and environmental views of one vector agree",
+		Units: cat(decV3, decV2, encUnits, objFuncs("v3m", "BaseMetrics", "TemporalMetrics"), objFuncs("v2m", "BaseMetrics", "TemporalMetrics"), scoreUnitsV3, scoreUnitsV2), Assumptions: append(a1, "A5", "A9"),
+		Meta: []string{"Accessor contracts: BaseMetrics()/TemporalMetrics() return the embedded object itself (nil on nil). By the Decode postconditions of the higher-level decoder the embedded object's fields are the parses of the lower-level tokens; by the scenarios / C09 a lower-level decoder applied to the projected vector reaches the same fields and name flags; Score, Severity and Encode are functions of exactly that state with 'modifies nothing' (their contracts), so the results are equal. A query that writes into the embedded object (e.g. a cached score) fails the frame obligation."},
+	}
 	P["C20"] = &PropPlan{ID: "C20", Title: "value codes, enumeration values and weights form the specification's tables",
-		Units: cat(v3(), v2(), []Unit{{Func: "v3m.Version.String"}, {Func: "v3m.get"}}),
+		Units: cat(v3(), v2(), []Unit{{Func: "v3m.Version.String"}, {Func: "v3m.get"}}, rtLemmas("v3", st.V3), rtLemmas("v2", st.V2)),
 		Assumptions: []string{"A10", "map-order-free"},
 	}
 	return P
